@@ -64,7 +64,10 @@ def gen_scen(rng, idx):
             c = rng.choice(cids)
             i = len(carriers)
             carriers.append(dict(cid=c if kind in ("good", "garbage") else None, kind=kind, open=False, sent=[], dead=False))
-            ops.append("n"); mops.append("n")
+            q = rng.choice([None, None, "client_ip=1.2.3.4", "", "client_ip=", "client_ip=fe80::1%eth0", "client_ip=%zz", "client_ip=::",
+                            "a;b=c", "client_ip=1.2.3.4&client_ip=5.6.7.8", "%", "client_ip=2001:db8::1%25eth0", "x=%ff%fe&client_ip=0.0.0.0"])
+            nop = "n" if q is None else "n:x" + q.encode().hex()
+            ops.append(nop); mops.append(nop)
             if kind == "badtoken":
                 hdr = "%016x" % (int(TOKEN, 16) ^ (1 << rng.randrange(64))) + c
             elif kind == "short":
